@@ -46,6 +46,11 @@ pub struct LiqCase {
     /// reconciliation in particular: bank 2 has no e-mode entries)
     #[serde(default)]
     pub emptied_slot: bool,
+    /// somebody borrows from the COLLATERAL bank, so that by the time of the liquidation its deposit share value is no
+    /// longer 1 and the liquidatee's collateral is a fractional number of native units (seize amounts around it:
+    /// floor, ceil, ceil + 1 - the seized collateral must never flip into a debt of the liquidatee)
+    #[serde(default)]
+    pub collateral_interest: bool,
 }
 
 pub fn case_strategy() -> impl Strategy<Value = LiqCase> {
@@ -60,9 +65,13 @@ pub fn case_strategy() -> impl Strategy<Value = LiqCase> {
         (prop_oneof![2 => 1u64..1000, 2 => 1000u64..1_000_000_000_000, 6 => 1u64..=65_536, 2 => 0u64..5], 0u8..3),
         (prop_oneof![Just(0u32), 1u32..90, 1000u32..20_000_000], prop::bool::weighted(0.35), prop::bool::weighted(0.15), prop::bool::weighted(0.3)),
         // staked world: the collateral (and the extra bank) are real staked-collateral banks, the debt bank is SOL-tagged
-        (prop::bool::weighted(0.12), prop::array::uniform2((1_000_000_000u64..2_000_000_000_000_000, 500u32..3000)), prop::bool::weighted(0.4)),
+        (prop::bool::weighted(0.12), prop::array::uniform2((1_000_000_000u64..2_000_000_000_000_000, 500u32..3000)), prop::bool::weighted(0.4), prop::bool::weighted(0.3)),
     )
-        .prop_map(|(mut banks, collateral, borrow_frac, extra_collateral, target_pm, liq_deposit_frac, liq_collateral, (q, qr), (wait, emode, reduce_only_collateral, stale_extra), (staked_world, pools, emptied_slot))| {
+        .prop_map(|(mut banks, collateral, borrow_frac, extra_collateral, target_pm, liq_deposit_frac, liq_collateral, (q, qr), (wait, emode, reduce_only_collateral, stale_extra), (staked_world, pools, emptied_slot, collateral_interest))| {
+            let collateral_interest = collateral_interest && !staked_world;
+            // with a fractional collateral balance half of the seize amounts sit right at it
+            let (q, qr) = if collateral_interest && q % 2 == 0 { (q % 5, 2u8) } else { (q, qr) };
+            let wait = if collateral_interest && wait < 1000 { 1000 + wait * 7919 } else { wait };
             let emode = emode && !staked_world;
             if staked_world {
                 let mut feed = banks[1].oracle.clone();
@@ -116,7 +125,7 @@ pub fn case_strategy() -> impl Strategy<Value = LiqCase> {
                 // keep confidence below the 10% usability bound
             }
             let q_rel = if q <= 65_536 && qr == 1 { 1 } else if q < 5 && qr == 2 { 2 } else { 0 };
-            LiqCase { spec: WorldSpec { banks, n_users: 3, program_fees_enabled: false, ..WorldSpec::default() }, collateral, borrow_frac, extra_collateral, target_pm, liq_deposit_frac, liq_collateral, q, q_rel, wait, emode, reduce_only_collateral, stale_extra: stale_extra && extra_collateral > 0, emptied_slot }
+            LiqCase { spec: WorldSpec { banks, n_users: 3, program_fees_enabled: false, ..WorldSpec::default() }, collateral, borrow_frac, extra_collateral, target_pm, liq_deposit_frac, liq_collateral, q, q_rel, wait, emode, reduce_only_collateral, stale_extra: stale_extra && extra_collateral > 0, emptied_slot, collateral_interest }
         })
 }
 
@@ -135,6 +144,12 @@ pub struct Stats {
     pub emptied_slot: bool,
     pub hostile_tried: u64,
     pub hostile_accepted: u64,
+    /// the liquidatee's collateral was a fractional number of native units when the liquidation ran
+    pub fractional_collateral: bool,
+    /// ... and the seize amount was floor / ceil / above
+    pub seize_vs_balance: &'static str,
+    /// the liquidation as generated (not a hostile variant, not the bisection) succeeded
+    pub first_ok: bool,
 }
 
 fn pos_bits(vm: &Vm, acct: &Pubkey, bank: &Pubkey) -> (i128, i128) {
@@ -293,6 +308,13 @@ pub fn run_case(c: &LiqCase, stats: &mut Stats) -> Result<(), (String, String)> 
             stats.emptied_slot = true;
         }
     }
+    if c.collateral_interest {
+        // the lender borrows three tenths of the collateral bank's liquidity: its deposits start to earn interest
+        let amt = (c.collateral as u128 * 3 / 10) as u64;
+        if amt > 0 {
+            let _ = w.vm.exec(&w.ix_borrow(lender.accts[0], lender.auth, ab, lender.tokens[ab], amt));
+        }
+    }
     // borrow
     let power = {
         let a = read_macct(&w.vm, &le.accts[0]).unwrap();
@@ -361,19 +383,23 @@ pub fn run_case(c: &LiqCase, stats: &mut Stats) -> Result<(), (String, String)> 
         }
     }
     // the liquidation
-    let pos_val = {
-        let (a, _) = pos_bits(&w.vm, &le.accts[0], &w.banks[ab].key);
-        q_floor(&(q_bits(a) * q_w(w.bank(ab).asset_share_value))).to_u64().unwrap_or(0)
+    let pre = w.vm.clone();
+    let mut pre_acc = w.vm.clone();
+    let _ = pre_acc.exec(&w.ix_accrue(ab));
+    let _ = pre_acc.exec(&w.ix_accrue(lb));
+    // the collateral balance the handler will see (interest accrued to now)
+    let pos_exact = {
+        let (a, _) = pos_bits(&pre_acc, &le.accts[0], &w.banks[ab].key);
+        q_bits(a) * q_w(read_bank(&pre_acc, &w.banks[ab].key).asset_share_value)
     };
+    let pos_val = q_floor(&pos_exact).to_u64().unwrap_or(0);
+    stats.fractional_collateral = pos_exact != q_int(pos_val);
     let q = match c.q_rel {
         1 => ((pos_val as u128 * c.q.min(65_536) as u128) >> 16) as u64,
         2 => (pos_val as i128 + (c.q % 5) as i128 - 2).clamp(0, u64::MAX as i128) as u64,
         _ => c.q,
     };
-    let pre = w.vm.clone();
-    let mut pre_acc = w.vm.clone();
-    let _ = pre_acc.exec(&w.ix_accrue(ab));
-    let _ = pre_acc.exec(&w.ix_accrue(lb));
+    stats.seize_vs_balance = if q_int(q) <= pos_exact { "within" } else if q == pos_val.saturating_add(1) && stats.fractional_collateral { "ceil" } else { "above" };
     let attempt = |w: &World, q: u64| -> (Vm, Result<(), u64>) {
         let mut vm = w.vm.clone();
         let ix = w.ix_liquidate(lq.accts[0], lq.auth, le.accts[0], ab, lb, q);
@@ -384,6 +410,7 @@ pub fn run_case(c: &LiqCase, stats: &mut Stats) -> Result<(), (String, String)> 
     match r {
         Ok(()) => {
             stats.success = true;
+            stats.first_ok = true;
             check_success(&w, &pre, &pre_acc, &post, &le.accts[0], &lq.accts[0], ab, lb, q, stats)?;
         }
         Err(e) => stats.err = Some(e),
@@ -456,7 +483,7 @@ pub fn run_case(c: &LiqCase, stats: &mut Stats) -> Result<(), (String, String)> 
     Ok(())
 }
 
-const RULE: &str = "proptest: 3-bank worlds (collateral / debt / extra bank with generated decimals 0-12, SPL / Token-2022 / transfer-fee mints, weights, Pyth-Switchboard-fixed oracles with confidence; in 35 % of the cases the debt bank's e-mode entry boosts the collateral bank's tag, in 15 % the collateral bank is set reduce-only after the borrow), liquidatee borrows a generated fraction of its borrowing power, collateral price steered so that maintenance health lands at a generated target in {very negative .. slightly negative, 0, positive}, liquidator funded with too little / enough deposit or other collateral, seize amounts absolute / fraction of / exactly around the collateral position, plus bisection to the largest seize amount that still succeeds. Oracle on every success: reference maintenance health (exact rationals, enclosure; on stored and accrued pre-state) was not positive, is not positive afterwards and not worse, no side flips, liquidator initially healthy, and the five book entries equal the enclosure of 95% / 97.5% / 2.5% of q*p_low/p_high (scaled by decimals) with whole tokens to the insurance vault and the fraction to outstanding insurance fees. Non-trivial = a successful liquidation where both prices carry confidence and the two mints have different decimals; rejection classes are counted.";
+const RULE: &str = "proptest: 3-bank worlds (collateral / debt / extra bank with generated decimals 0-12, SPL / Token-2022 / transfer-fee mints, weights, Pyth-Switchboard-fixed oracles with confidence; in 35 % of the cases the debt bank's e-mode entry boosts the collateral bank's tag, in 15 % the collateral bank is set reduce-only after the borrow), liquidatee borrows a generated fraction of its borrowing power, collateral price steered so that maintenance health lands at a generated target in {very negative .. slightly negative, 0, positive}, liquidator funded with too little / enough deposit or other collateral, seize amounts absolute / fraction of / exactly around the collateral position (in 30 % of the cases a third party borrows from the collateral bank so that the position is a FRACTIONAL number of units by then: floor / ceil / ceil + 1 are tried), plus bisection to the largest seize amount that still succeeds. Oracle on every success: reference maintenance health (exact rationals, enclosure; on stored and accrued pre-state) was not positive, is not positive afterwards and not worse, no side flips, liquidator initially healthy, and the five book entries equal the enclosure of 95% / 97.5% / 2.5% of q*p_low/p_high (scaled by decimals) with whole tokens to the insurance vault and the fraction to outstanding insurance fees. Non-trivial = a successful liquidation where both prices carry confidence and the two mints have different decimals; rejection classes are counted.";
 
 pub fn run(ctx: &Ctx) -> Report {
     let cases: u32 = ctx.tier.pick(6000, 150_000);
@@ -490,6 +517,9 @@ pub fn run(ctx: &Ctx) -> Report {
                 rep.add_extra("hostile_observation_lists_accepted", st.hostile_accepted);
                 if st.emptied_slot {
                     rep.label("liquidatee-holds-an-emptied-open-slot");
+                }
+                if st.built && st.fractional_collateral {
+                    rep.label(&format!("fractional-collateral:seize-{}:{}", st.seize_vs_balance, if st.first_ok { "succeeded" } else { "refused" }));
                 }
                 if st.stale_extra {
                     rep.label("extra-collateral-oracle-stale");
